@@ -4056,6 +4056,15 @@ GRsetcompress(int32 riid, comp_coder_t comp_type, comp_info *cinfo)
     if (ri_ptr->use_buf_drvr)
         HGOTO_ERROR(DFE_CANTMOD, FAIL);
 
+    /* The compressed element cannot be created in a file opened read-only: refuse before the image is
+       marked as compressed, or every later read of it would try to create the element and fail */
+    {
+        filerec_t *file_rec = HAatom_object(ri_ptr->gr_ptr->hdf_file_id);
+
+        if (file_rec == NULL || ((file_rec->access) & DFACC_WRITE) == 0)
+            HGOTO_ERROR(DFE_DENIED, FAIL);
+    }
+
     /* Check that the compression method is enabled */
     HCget_config_info(comp_type, &comp_config);
     if ((comp_config & (COMP_DECODER_ENABLED | COMP_ENCODER_ENABLED)) == 0) {
